@@ -62,6 +62,10 @@ impl Known {
     pub fn is_open(&self, key: &str) -> bool {
         self.open.contains_key(key)
     }
+    /// all open keys of this property
+    pub fn open_keys(&self) -> Vec<String> {
+        self.open.keys().cloned().collect()
+    }
     pub fn what(&self, key: &str) -> Option<String> {
         self.open.get(key).cloned()
     }
